@@ -16,6 +16,9 @@ from fastparquet.schema import SchemaHelper
 
 ENC = os.environ.get("VERIF_ENC", "plain")              # plain | dict | delta
 OUT = os.environ.get("VERIF_OUT", "float")              # float (float64 output) | nullable (Int64 extension array)
+#                                                         | cat (int8 category codes: the column is loaded as categorical)
+WIDTH = int(os.environ.get("VERIF_WIDTH", "4"))         # bit width byte of a dictionary-index page
+SELFMADE = os.environ.get("VERIF_SELFMADE", "0") == "1"  # file written by this library (index fast path)
 PHYS = os.environ.get("VERIF_PHYS", "int64")            # int64 | double   (physical type of the column)
 OPTIONAL = os.environ.get("VERIF_OPTIONAL", "1") == "1"
 ROWS = [int(x) for x in os.environ.get("VERIF_PAGE_ROWS", "2,2").split(",")]
@@ -56,9 +59,13 @@ class BVec(NDArr):
     """1-d numpy array shim: levels, indices, decoded values, boolean masks.  Slices and view() share storage with
     the array they were taken from (numpy semantics); mask indexing and comparisons give new arrays."""
 
-    def __init__(self, items, lo=0, hi=None):
+    esize = 4                                            # element size in bytes (what a decoder must write)
+
+    def __init__(self, items, lo=0, hi=None, esize=None):
         store = items if isinstance(items, list) else list(items)
         self.items = _Items(store, lo, len(store) if hi is None else hi)
+        if esize is not None:
+            self.esize = esize
 
     def __len__(self):
         return len(self.items)
@@ -75,7 +82,7 @@ class BVec(NDArr):
             b = n if k.stop is None else k.stop
             a = min(max(a, 0), n)
             b = min(max(b, a), n)
-            return BVec(self.items.store, self.items.lo + a, self.items.lo + b)
+            return BVec(self.items.store, self.items.lo + a, self.items.lo + b, esize=self.esize)
         if isinstance(k, BVec):
             if len(k) != len(self.items):
                 raise IndexError("boolean index did not match indexed array: %d vs %d" % (len(k), len(self.items)))
@@ -94,7 +101,25 @@ class BVec(NDArr):
                 for i in range(len(dst)):
                     dst.items[i] = v
             return
+        if isinstance(k, BVec):
+            if len(k) != len(self):
+                raise IndexError("boolean index did not match indexed array: %d vs %d" % (len(k), len(self)))
+            idx = [i for i, m in enumerate(k.items) if m]
+            if isinstance(v, BVec):
+                if len(v) != len(idx):
+                    raise ValueError("shape mismatch: %d values for %d slots" % (len(v), len(idx)))
+                for i, x in zip(idx, v.items):
+                    self.items[i] = x
+            else:
+                for i in idx:
+                    self.items[i] = v
+            return
         self.items[k] = v
+
+    def __mul__(self, o):
+        if len(o) != len(self):
+            raise ValueError("operands could not be broadcast together: %d vs %d" % (len(self), len(o)))
+        return BVec([bool(a) and bool(b) for a, b in zip(self.items, o.items)])
 
     def __invert__(self):
         return BVec([not x for x in self.items])
@@ -136,12 +161,28 @@ class _IDtype(_FDtype):
         return o in ("int64", "i8")
 
 
+class _I8Dtype(_FDtype):
+    kind, itemsize = "i", 1
+
+    def __eq__(self, o):
+        return o in ("int8", "i1")
+
+
 class _ByteView:
     def __init__(self, arr):
         self.arr = arr
 
+    def __len__(self):
+        return len(self.arr) * self.arr.dtype.itemsize
+
     def __setitem__(self, k, token):
         # raw page bytes copied into the output: they ARE the values when the element layouts match
+        if isinstance(token, BVec):
+            # bytes of single-byte indices, one per element of a single-byte output
+            if self.arr.dtype.itemsize != 1:
+                raise ValueError("byte-wise copy into %d-byte elements" % self.arr.dtype.itemsize)
+            self.arr[k] = token
+            return
         if not (isinstance(k, slice) and k.start is None and k.stop is None):
             raise IndexError(k)
         vals = token[1] if isinstance(token, tuple) and token[0] == "valbytes" else None
@@ -164,7 +205,7 @@ class Arr:
 
     @property
     def nbytes(self):
-        return 8 * len(self)
+        return self.dtype.itemsize * len(self)
 
     def view(self, t):
         return _ByteView(self)
@@ -208,7 +249,7 @@ class Masked:
 
     def __init__(self, n, mask=None, data=None):
         self.dtype = pd.Int64Dtype()
-        self._mask = BVec([False] * n) if mask is None else mask
+        self._mask = BVec([False] * n, esize=1) if mask is None else mask
         self._data = Arr(["unset"] * n, dtype=_IDtype()) if data is None else data
 
     def __len__(self):
@@ -228,6 +269,44 @@ class _Dic:
 
     def __getitem__(self, val):
         return BVec([self.labels[i] for i in val.items])
+
+    def __len__(self):
+        return len(self.labels)
+
+    def __ne__(self, o):
+        return BVec([a != b for a, b in zip(self.labels, o.labels)] + [True] * abs(len(self.labels) - len(o.labels)))
+
+    __hash__ = None
+
+
+class Tok(tuple):
+    """page bytes as handed around by the reader: ("defbytes" | "valbytes", values).  Slicing the value bytes of a
+    dictionary-index page from offset 2 (width byte + one run header byte) gives the index bytes themselves when the
+    indices are 8 bits wide - the layout this library writes"""
+
+    def __getitem__(self, k):
+        if isinstance(k, slice):
+            if self[0] == "valbytes" and k.start == 2 and k.stop is None and WIDTH == 8:
+                return BVec(list(self[1]), esize=1)
+            return BVec([-9] * 3, esize=1)
+        return tuple.__getitem__(self, k)
+
+
+class _CatDef:
+    def __init__(self):
+        self.cats = None
+
+    def _set_categories(self, idx, fastpath=False):
+        self.cats = list(idx)
+
+
+class _PDShim:
+    core = pd.core
+    NA = pd.NA
+
+    @staticmethod
+    def Index(dic, dtype=None):
+        return list(dic.labels)
 
 
 def _val_len(v):
@@ -260,28 +339,32 @@ class _ColIO:
         at = self.pos
         self.pos += n
         if self.k < 0 or self.k >= len(self.pages):
-            return ("garbage", None)
+            return Tok(("garbage", None))
         d, v = self.pages[self.k]
         body = self.starts[self.k] + HDR
         if (at, n) == (body, DEF_LEN):
-            return ("defbytes", d)
+            return Tok(("defbytes", d))
         if (at, n) == (body + DEF_LEN, _val_len(v)):
-            return ("valbytes", v)
-        return ("garbage", None)
+            return Tok(("valbytes", v))
+        return Tok(("garbage", None))
 
 
 class _PageIO:
+    """cencoding.NumpyIO over one page part.  A dictionary-index part is [bit width byte][hybrid stream]; the hybrid
+    stream starts with a one-byte run header"""
+
     def __init__(self, src):
-        self.src = src
+        self.src, self.pos = src, 0
 
     def read_byte(self):
-        return 4
+        self.pos += 1
+        return WIDTH
 
     def tell(self):
-        return 1
+        return self.pos
 
     def seek(self, n, whence=0):
-        pass
+        self.pos = n if whence == 0 else self.pos + n
 
 
 def _fill(dst, values, n):
@@ -311,14 +394,21 @@ class _Enc:
 
     @staticmethod
     def read_unsigned_var_int(io):
-        return 0
+        io.pos += 1
+        return 3
 
     @staticmethod
     def read_rle_bit_packed_hybrid(io_obj, width, length, o, itemsize=4):
         tok = io_obj.src
-        if tok[0] == "defbytes":
+        # contract of the native decoder: the stream starts at the cursor; it writes 4-byte items when itemsize == 4
+        # and single bytes otherwise
+        start = 1 if tok[0] == "valbytes" else 0
+        tgt = o.src
+        esize = tgt.arr.dtype.itemsize if isinstance(tgt, _ByteView) else tgt.esize
+        ok = io_obj.pos == start and (4 if itemsize == 4 else 1) == esize
+        if tok[0] == "defbytes" and ok:
             _fill(o, tok[1], length)
-        elif tok[0] == "valbytes":
+        elif tok[0] == "valbytes" and ok:
             _fill(o, tok[1], len(tok[1]))
         else:
             _fill(o, [9] * 8, 8)
@@ -326,7 +416,11 @@ class _Enc:
     @staticmethod
     def delta_binary_unpack(io_obj, o, longval=0):
         tok = io_obj.src
-        if tok[0] == "valbytes" and longval:
+        # contract of the native decoder: it writes integers of 8 (longval) or 4 bytes; written into the storage of a
+        # float64 array they are not the numbers
+        tgt = o.src
+        into_float = isinstance(tgt, _ByteView) and tgt.arr.dtype.kind == "f"
+        if tok[0] == "valbytes" and longval and not into_float:
             _fill(o, tok[1], len(tok[1]))
         else:
             _fill(o, [-5] * 8, 8)
@@ -358,11 +452,18 @@ class _TO:
 
 class _NP:
     ndarray = NDArr
-    uint8, bool_, nan = "uint8", "bool", NAN
+    uint8, bool_, nan, int32 = "uint8", "bool", NAN, "int32"
 
     @staticmethod
     def empty(n, dtype=None):
-        return BVec(["unset"] * n)
+        es = getattr(dtype, "itemsize", None) or {"uint8": 1, "bool": 1, "int8": 1}.get(dtype, 4)
+        return BVec(["unset"] * n, esize=1 if es == 1 else 4)
+
+    @staticmethod
+    def iinfo(dt):
+        class _I:
+            max = 127 if dt.itemsize == 1 else (1 << (8 * dt.itemsize - 1)) - 1
+        return _I
 
     @staticmethod
     def frombuffer(buf, dtype=None):
@@ -418,22 +519,30 @@ def run(levels, codes, mask=None):
         nsel = 0
         for m in mask:
             nsel += 1 if m else 0
-    assign = Masked(nsel) if OUT == "nullable" else Arr(["unset"] * nsel)
+    catdef = None
+    if OUT == "cat":
+        assign, catdef = Arr(["unset"] * nsel, dtype=_I8Dtype()), _CatDef()
+    else:
+        assign = Masked(nsel) if OUT == "nullable" else Arr(["unset"] * nsel)
     md = parquet_thrift.ColumnMetaData(type=HELPER.schema_element(["x"]).type, path_in_schema=["x"], num_values=n,
                                        data_page_offset=4, total_compressed_size=100, codec=0)
     col = parquet_thrift.ColumnChunk(meta_data=md)
     saved = (core.encoding, core.ThriftObject, core.read_dictionary_page, core.np, core.convert, core.decompress_data,
-             core.read_plain)
-    core.encoding, core.ThriftObject, core.np = _Enc, _TO, _NP
+             core.read_plain, core.pd)
+    core.encoding, core.ThriftObject, core.np, core.pd = _Enc, _TO, _NP, _PDShim
     core.read_dictionary_page = lambda infile, sh, ph, cmd, utf=False: _Dic(LABELS)
     core.convert = lambda v, se, dtype=None: v
     core.decompress_data = lambda data, size, codec: data
     core.read_plain = _s_read_plain
     try:
-        core.read_col(col, HELPER, _Raw(), assign=assign, row_filter=None if mask is None else BVec(list(mask)))
+        core.read_col(col, HELPER, _Raw(), assign=assign, row_filter=None if mask is None else BVec(list(mask)),
+                      use_cat=OUT == "cat", catdef=catdef, selfmade=SELFMADE)
     finally:
         (core.encoding, core.ThriftObject, core.read_dictionary_page, core.np, core.convert, core.decompress_data,
-         core.read_plain) = saved
+         core.read_plain, core.pd) = saved
+    if OUT == "cat":
+        return [NAN if c == -1 else (catdef.cats[c] if isinstance(c, int) and 0 <= c < len(catdef.cats) else ("code", c))
+                for c in assign.store]
     if OUT == "nullable":
         return [NAN if m else v for m, v in zip(list(assign._mask.items), assign._data.store)]
     return list(assign.store)
@@ -467,6 +576,8 @@ def _pages_const():
 
 
 def _series(vals):
+    if OUT == "cat":
+        return pd.Series(pd.Categorical(pd.Series(vals, dtype="object"), categories=LABELS))
     if PHYS == "double" or OUT != "nullable":
         ser = pd.Series([np.nan if v is None else float(v) for v in vals], dtype="float64")
     else:
@@ -476,12 +587,14 @@ def _series(vals):
     return ser
 
 
-def replay_h_read_col_v2_masked(levels, codes, mask):
-    """a real v2 file (written by this library page by page; DELTA pages built from the specification), read with the
-    witness's row mask through ParquetFile.to_pandas(row_filter=...)"""
+def _concrete(levels, codes, mask=None):
+    """a real v2 file holding the witness's column, read through ParquetFile.to_pandas (with the row mask, if any).
+    Files are written by this library page by page; DELTA pages, INT64 dictionary columns and every file that must
+    look foreign (SELFMADE off) are built from the specification."""
     import shutil, tempfile
     import fastparquet
     from fastparquet import writer as w
+    from vf.pyshim import flat_file
     vals, vi = [], 0
     for lv in levels:
         if lv == 1:
@@ -489,38 +602,45 @@ def replay_h_read_col_v2_masked(levels, codes, mask):
             vi += 1
         else:
             vals.append(None)
-    spec_dict = ENC == "dict" and PHYS == "int64"       # INT64 dictionary column built from the specification
+    spec_dict = ENC == "dict" and PHYS == "int64" and not (OUT == "cat" and SELFMADE)
+    if OUT == "cat" and not SELFMADE and WIDTH < 2:
+        return None, "dictionary indices 0..3 need two bits"
     if ENC != "delta" and not spec_dict and not _pages_const():
         return None, "pages of these sizes cannot be produced by the concrete driver"
-    d = tempfile.mkdtemp(prefix="c13-")
+    d = tempfile.mkdtemp(prefix="v2-")
     old = (w._rows_per_page, w.DATAPAGE_VERSION)
+    what = "v2 column %r (%s pages of %r rows%s)" % (vals, ENC, ROWS, ", loaded as categorical" if OUT == "cat" else "")
     try:
         fn = os.path.join(d, "t.parq")
         if ENC == "delta":
-            from vf.pyshim import flat_file
             flat_file.build(fn, [int(v) for v in vals], 64, 2, True)
         elif spec_dict:
-            from vf.pyshim import flat_file
-            flat_file.build_dict(fn, LABELS, list(codes), 2, nulls=[lv != 1 for lv in levels], optional=OPTIONAL,
-                                 version=2, page_rows=ROWS)
+            flat_file.build_dict(fn, LABELS, list(codes), WIDTH if OUT == "cat" else 2, nulls=[lv != 1 for lv in levels],
+                                 optional=OPTIONAL, version=2, page_rows=ROWS)
         else:
             w._rows_per_page = lambda data, se, has_nulls=True, page_size=None: ROWS[0]
             w.DATAPAGE_VERSION = 2
             fastparquet.write(fn, pd.DataFrame({"x": _series(vals)}), has_nulls=OPTIONAL)
+        cats = (["x"] if OUT == "cat" else []) if ENC == "dict" else None
         try:
             pf = fastparquet.ParquetFile(fn, pandas_nulls=(OUT == "nullable"))
-            out = pf.to_pandas(row_filter=np.array(mask, dtype=bool), categories=[] if ENC == "dict" else None)["x"]
+            kw = {} if mask is None else dict(row_filter=np.array(mask, dtype=bool))
+            out = pf.to_pandas(categories=cats, **kw)["x"]
         except Exception as ex:
-            return True, "v2 column %r (%s pages of %r rows) read with mask %r fails: %s: %s" % (
-                vals, ENC, ROWS, mask, type(ex).__name__, str(ex)[:80])
+            return True, "%s read%s fails: %s: %s" % (what, "" if mask is None else " with mask %r" % (mask,),
+                                                      type(ex).__name__, str(ex)[:80])
         got = [None if pd.isna(x) else float(x) for x in out.astype(object)]
-        want = [None if v is None else float(v) for v, m in zip(vals, mask) if m]
+        want = [None if v is None else float(v) for v, m in zip(vals, mask or [True] * len(vals)) if m]
         if got != want:
-            return True, "v2 column %r (%s pages of %r rows) read with mask %r gives %r" % (vals, ENC, ROWS, mask, got)
+            return True, "%s read%s gives %r" % (what, "" if mask is None else " with mask %r" % (mask,), got)
         return False, "agrees"
     finally:
         w._rows_per_page, w.DATAPAGE_VERSION = old
         shutil.rmtree(d, ignore_errors=True)
+
+
+def replay_h_read_col_v2_masked(levels, codes, mask):
+    return _concrete(levels, codes, list(mask))
 
 
 def _codes_ok(levels, codes):
@@ -541,42 +661,4 @@ def h_read_col_v2(levels: List[int], codes: List[int]) -> bool:
 
 
 def replay_h_read_col_v2(levels, codes):
-    """a real file written by this library with data page v2 (one page per ROWS entry), read back"""
-    import shutil, tempfile
-    import numpy as np
-    import fastparquet
-    from fastparquet import writer as w
-    if ENC == "delta":
-        from vf.pyshim import flat_file
-        vals = [int(c) for c in codes]
-        ok, info = flat_file.roundtrip(vals, 64, 2, True)
-        return (not ok), info
-    vals, vi = [], 0
-    for lv in levels:
-        if lv == 1:
-            vals.append(LABELS[codes[vi]] if ENC == "dict" else codes[vi])
-            vi += 1
-        else:
-            vals.append(None)
-    if not _pages_const():
-        return None, "pages of these sizes cannot be produced by the concrete driver"
-    d = tempfile.mkdtemp(prefix="c03-")
-    old = (w._rows_per_page, w.DATAPAGE_VERSION)
-    try:
-        w._rows_per_page = lambda data, se, has_nulls=True, page_size=None: ROWS[0]
-        w.DATAPAGE_VERSION = 2
-        fn = os.path.join(d, "t.parq")
-        fastparquet.write(fn, pd.DataFrame({"x": _series(vals)}), has_nulls=OPTIONAL)
-        try:
-            out = fastparquet.ParquetFile(fn).to_pandas(categories=[] if ENC == "dict" else None)["x"]
-        except Exception as ex:
-            return True, "v2 column %r (pages of %r rows) cannot be read back: %s: %s" % (
-                vals, ROWS, type(ex).__name__, str(ex)[:80])
-        got = [None if pd.isna(x) else float(x) for x in out.astype(object)]
-        want = [None if v is None else float(v) for v in vals]
-        if got != want:
-            return True, "v2 column %r (pages of %r rows) reads back as %r" % (vals, ROWS, got)
-        return False, "agrees"
-    finally:
-        w._rows_per_page, w.DATAPAGE_VERSION = old
-        shutil.rmtree(d, ignore_errors=True)
+    return _concrete(levels, codes)
